@@ -120,7 +120,7 @@ def pivContract (d0 d : Array Int) (lo hi mlo mhi : Int) : Bool :=
 def handleSrt : List String → String
   | "sort" :: xs =>
     match ints? xs with
-    | some x => showA (IntSort.sort x.toArray)
+    | some x => showA (IntSort.sort IntSort.genCfg x.toArray)
     | none => "bad-op"
   | "ins" :: a :: b :: "|" :: ds =>
     match int? a, int? b, ints? ds with
@@ -128,16 +128,16 @@ def handleSrt : List String → String
     | _, _, _ => "bad-op"
   | "heap" :: a :: b :: "|" :: ds =>
     match int? a, int? b, ints? ds with
-    | some a, some b, some d => showA (IntSort.heapSort d.toArray a b)
+    | some a, some b, some d => showA (IntSort.heapSort IntSort.genCfg d.toArray a b)
     | _, _, _ => "bad-op"
   | "qs" :: a :: b :: md :: "|" :: ds =>
     match int? a, int? b, nat? md, ints? ds with
-    | some a, some b, some md, some d => showA (IntSort.quickSort (md + 2) d.toArray a b md)
+    | some a, some b, some md, some d => showA (IntSort.quickSort IntSort.genCfg (md + 2) d.toArray a b md)
     | _, _, _, _ => "bad-op"
   | "piv" :: lo :: hi :: "|" :: ds =>
     match int? lo, int? hi, ints? ds with
     | some lo, some hi, some d =>
-      match IntSort.doPivot d.toArray lo hi with
+      match IntSort.doPivot IntSort.genCfg d.toArray lo hi with
       | .ok (d', mlo, mhi) => if pivContract d.toArray d' lo hi mlo mhi then "piv-ok" else "piv-bad"
       | .panic => "panic"
       | .outOfFuel => "outoffuel"
@@ -145,14 +145,14 @@ def handleSrt : List String → String
   | "pivx" :: lo :: hi :: "|" :: ds =>
     match int? lo, int? hi, ints? ds with
     | some lo, some hi, some d =>
-      match IntSort.doPivot d.toArray lo hi with
+      match IntSort.doPivot IntSort.genCfg d.toArray lo hi with
       | .ok (d', mlo, mhi) => toString mlo ++ " " ++ toString mhi ++ " " ++ showInts d'.toList
       | .panic => "panic"
       | .outOfFuel => "outoffuel"
     | _, _, _ => "bad-op"
   | ["mdx", n] =>
     match nat? n with
-    | some n => showOutcome toString (IntSort.maxDepth n)
+    | some n => showOutcome toString (IntSort.maxDepth IntSort.genCfg n)
     | none => "bad-op"
   | _ => "bad-op"
 
